@@ -288,19 +288,19 @@ theorem store_new (hk : Function.Injective kname) (kinds : List Nat) (sch : Pyx.
       Refines kname (extend ι s.count ⟨kname k, st.next (kname k)⟩) (Pyx.Meta.new s k hasId).1 st' :=
   new_refines hk kinds sch R A k hkin hasId
 
-/-- (b) `relate` of live instances: accepted by the mechanism (both connects, or already related) ⇒ accepted by Spec with
-    corresponding results; rejected (RelateException after the undo, UnknownLink) ⇒ rejected by Spec, and neither
-    state changes.  Guard: both instances live (Spec rejects a relate of a deleted instance; the code does not look). -/
+/-- (b) `relate` of any two CREATED instances: accepted by the mechanism (both connects, or already related) ⇒ accepted by
+    Spec with corresponding results; rejected (RelateException after the undo or because an instance is deleted — the
+    mechanism keeps the instances it deletes in `deleted` —, UnknownLink) ⇒ rejected by Spec, and neither state changes -/
 theorem store_relate (hk : Function.Injective kname) (kinds : List Nat) (sch : Pyx.Meta.Schema)
     (R : Refines kname ι s st) (A : AllInv sch s) {x y : Nat}
-    (hx : Pyx.Meta.live s x) (hy : Pyx.Meta.live s y) (rel phrase : String) :
+    (hx : x < s.count) (hy : y < s.count) (rel phrase : String) :
     ((Pyx.Meta.relate sch s x y rel phrase).2 = .ok →
       ∃ st', relate (ctxOf kname kinds sch) (ι x) (ι y) rel phrase st = .ok st' ∧
         Refines kname ι (Pyx.Meta.relate sch s x y rel phrase).1 st') ∧
     ((Pyx.Meta.relate sch s x y rel phrase).2 ≠ .ok →
       (Pyx.Meta.relate sch s x y rel phrase).1 = s ∧
         ∃ e, relate (ctxOf kname kinds sch) (ι x) (ι y) rel phrase st = .error e) :=
-  relate_refines hk kinds sch R A hx hy rel phrase
+  relate_refines' hk kinds sch R A hx hy rel phrase
 
 /-- (c) `unrelate` of created instances, accepted and rejected (UnrelateException, UnknownLink) alike -/
 theorem store_unrelate (hk : Function.Injective kname) (kinds : List Nat) (sch : Pyx.Meta.Schema)
